@@ -1,7 +1,7 @@
 /-!
 # RFC 7641 §3.4 freshness of a notification, as coded in `Request._run`
 
-`aiocoap/protocol.py:783-791` (after the `fix:` commit for C07):
+`aiocoap/protocol.py:801-809` (after the `fix:` commits for C07):
 
     is_recent = (
         (v1 < v2 and v2 - v1 < 2**23)
